@@ -34,12 +34,45 @@ CLAIMED = {
             'total), option-resolution model (selection_exact, path precedence, unknown name fails early); tie: regenerated gen/Names.v + '
             'str_to_* and real-binary runs', '7 C14',
             'Coq proof by computation over regenerated tables (forallb lifted) + structural lemmas + binary correspondence'),
+    'C03': ('analyze_dir_union: for every tree, listing order and duplicate-free pattern list the result is a permutation of the '
+            'per-file findings, keys duplicate-free, discovery order per pattern, no empty vectors; panic iff an eligible file is '
+            'unreadable/unparsable; tie: real directory trees (all interleavings of 4-entry directories) vs model fed the observed '
+            'read_dir order + real binary runs', '7 C03',
+            'Coq proof by induction over the nested directory tree + permutation arguments + correspondence on real directories'),
+    'C04': ('no_panic: all 30 detector models return Ok on every tree satisfying wf_parser (every unwrap/expect/index/overflow of the '
+            'Rust code is an explicit Panic in the model); no_panic_lines for texts with < 2^31 lines; tie: catch_unwind runs of debug and '
+            'release builds incl. out-of-domain stream, depth 64, 1000 definitions; stack depth of the real binary sampled (partial)', '7 C04',
+            'Coq proof via closed forms of all detector models + panic-agreement correspondence (debug and release builds)'),
+    'C08': ('canonical-subset-reported-subset-matching theorems for constant_variables, immutable_variables, memory_to_calldata, sstore '
+            'over the HashMap model (association list, insert replaces) under unique state-variable names; tie as C05', '7 C08', T_CORR),
+    'C11': ('report reader round trip, entries = findings (Permutation), section iff findings, over regenerated section texts with '
+            'finite side conditions re-established by computation; tie: byte-exact report correspondence + spec on implementation bytes', '7 C11',
+            'Coq proof (line-oriented reader, induction over findings) + finite side conditions by vm_compute over regenerated texts + byte-exact correspondence'),
+    'C12': ('printed totals = number of entries = number of findings; category and severity headings present iff findings exist; '
+            'severity table regenerated', '7 C12',
+            'Coq proof over the report model + regenerated severity table + correspondence on all 16 vulnerability subsets'),
+    'C13': ('render_order_independent / render_set_function: the report bytes depend only on the set of findings, for every map '
+            'iteration order and insertion order; tie: same set rendered in fresh processes and insertion orders, real binary on '
+            're-created trees', '7 C13',
+            'Coq proof (sorted-permutation uniqueness) + correspondence across processes / insertion orders'),
+    'C15': ('verdict_independent: in any run over any tree with any co-selected pattern list the lines recorded for (file, pattern) '
+            'equal the per-file analysis; no_shared_state over the regenerated inventory; thread interleavings sampled by a 16-thread '
+            'harness run (partial for the runtime part)', '7 C15',
+            'Coq proof on the directory model + regenerated shared-state inventory + multi-threaded correspondence runs'),
+    'C16': ('eligible_iff_sol_source + inert_files: non-eligible files at any depth/position with any content never change the result; '
+            'tie: name-filter enumeration over fragment concatenations + tree pairs with/without inert files', '7 C16',
+            'Coq proof (name-filter characterisation, induction over trees) + exhaustive name enumeration correspondence'),
     'C18': ('run_frame / run_overwrites / failed_run_writes_nothing / old_report_inert on an abstract file system + regenerated effect '
             'inventory (exactly one write call site, no shared state); OS-level effects sampled by snapshot runs of the real binary '
             '(partial for the runtime part)', '7 C18',
             'Coq proof on an abstract file-system model + regenerated effect inventory + snapshot runs of the binary'),
 }
-NOT_YET = {}
+NOT_YET = {
+    'C17': 'check not built yet in this round: the model part (location equivariance of all detectors, string-content irrelevance) and the '
+           're-layout correspondence are in progress; the technique applies (DESIGN.md section 7 C17)',
+    'C19': 'check not built yet in this round: composition over top-level items follows from the closed forms of the detectors and is in '
+           'progress; the technique applies (DESIGN.md section 7 C19)',
+}
 
 
 def main():
